@@ -118,6 +118,35 @@ def _clone_initial(v):
     return v
 
 
+def mutable_globals(mod):
+    """names declared `global` inside some function of the module and assigned there"""
+    cached = getattr(mod, '_mutable_globals', None)
+    if cached is not None:
+        return cached
+    from .ir import walk
+    out = set()
+    funcs = list(mod.functions.values())
+    for c in mod.classes.values():
+        funcs.extend(c.methods.values())
+    for f in funcs:
+        if f.body is None:
+            continue
+        declared = set()
+        for n in walk(f.body):
+            if n.k == 'Global':
+                declared.update(n.names)
+        if not declared:
+            continue
+        for n in walk(f.body):
+            if n.k in ('Assign', 'AugAssign'):
+                tgts = n.f.get('targets') or [n.f.get('target')]
+                for t in tgts:
+                    if t is not None and getattr(t, 'k', None) == 'Name' and t.id in declared:
+                        out.add(t.id)
+    mod._mutable_globals = out
+    return out
+
+
 class Exec(object):
     def __init__(self, program, prefix=(), fuc_id='?', prune=True):
         self.program = program
@@ -293,8 +322,21 @@ class Exec(object):
             if name in g:
                 return g[name]
             gi = getattr(mod, 'global_inits', {})
+            if name in mutable_globals(mod) and name in mod.globals_ctypes:
+                # a module-level variable that some function reassigns (declared `global` there): its value at the entry of the function
+                # under contract is whatever earlier calls left - arbitrary, not the initialiser
+                hint = None
+                cc = self.current_contract
+                if cc is not None:
+                    hint = cc.hints.get('global:' + name)
+                if hint is not None and 'value' in hint:
+                    v = hint['value'](self) if callable(hint['value']) else hint['value']
+                else:
+                    v = self.symbolic_of_ctype(mod.globals_ctypes[name], 'global_' + name, hint)
+                g[name] = v
+                return v
             if name in gi:
-                # module-level cdef constant with an initialiser (never reassigned constants such as NN, MM)
+                # module-level cdef constant with an initialiser (never reassigned: checked by mutable_globals)
                 v = self.convert(self.eval(gi[name]), mod.globals_ctypes.get(name), 0, name)
                 g[name] = v
                 return v
@@ -332,6 +374,13 @@ class Exec(object):
             return v
         k = ct[0]
         if k == 'double':
+            if len(ct) > 1 and ct[1] == 32 and isinstance(v, T) and not v.is_const():
+                # store into a C float: the value is rounded to single precision; the encoding treats DOUBLE arithmetic as real
+                # arithmetic, not 24-bit arithmetic, so the store must be exact (f32(x) == x; true for small whole numbers)
+                r = tm.to_real(tm.bool_to_int(v))
+                self.oblige('conv', tm.eq(tm.app('f32', (r,), REAL), r), label=what or 'float', line=line,
+                            note='value stored into a single-precision C float must be exactly representable')
+                return r
             if isinstance(v, T):
                 return tm.to_real(tm.bool_to_int(v))
             if isinstance(v, bool):
